@@ -106,6 +106,8 @@ def run(F, R, tier):
             leaves = S.origins(yv)
             ok = yv.get("res") == "local" and any(any(x.get("k") == "Field" and x["field"] == "yanked" for x in walk(d[1])) and any(x.get("k") == "Field" and x["field"] == "versions" for x in walk(d[1])) for d in local_defs(rv, yv["lid"]) if d[0] == "let")
             R.ob("C06-a", "tier existing reports the registry's yanked flag of the pick", ok, "is_yanked = %s" % expr_text(yv), where(r))
+            dflt = [x for d in local_defs(rv, yv["lid"]) if d[0] == "let" for x in walk(d[1]) if x.get("k") == "MethodCall" and x["name"] == "unwrap_or"] if yv.get("res") == "local" else []
+            R.ob("C06-a", "a selected version the registry does not list is not reported as yanked", len(dflt) == 1 and peel(dflt[0]["args"][0]).get("v") is False, "default of the yanked flag is `%s`" % (expr_text(dflt[0]["args"][0]) if dflt else "?"), where(r))
         elif t in (1, 2):
             R.ob("C06-a", "tier %s result is not yanked" % names[t], yv.get("v") is False, "is_yanked = %s" % expr_text(yv), where(r))
         elif t == 3:
@@ -193,6 +195,28 @@ def run(F, R, tier):
         if R.ob("C06-e", "date reported only when a flag says a newer match was excluded", flag is not None and flag.get("res") == "local", "newest_dependency_date = %s" % expr_text(d), where(errs[0])):
             ors = [n for n in rv["_nodes"] if n["k"] == "AssignOp" and n["op"] == "|=" and peel(n["l"]).get("lid") == flag["lid"]]
             R.ob("C06-e", "the flag accumulates both registry tiers", len(ors) == 2 and all("had_higher_date_version" in expr_text(o["r"]) for o in ors), "flag updated at %d site(s)" % len(ors), where(errs[0]))
+    # the "a newer match was excluded by date" flag of the maximum search: false unless some
+    # version satisfies the requirement, and only reported when none passed the date filter
+    rvf = F.body("packages::resolve_version")
+    nn = [n for n in rvf["_nodes"] if n["k"] == "Struct" and (n.get("variant") or "").endswith("ResolveVersionResult::None")]
+    if R.ob("C06-e", "the maximum search reports why nothing was found", len(nn) == 1, "shape changed", rvf["file"]):
+        fv = peel_value(nn[0]["fields"][0]["e"])
+        ok = False
+        why = "flag is `%s`" % expr_text(fv)
+        if fv.get("res") == "local":
+            defs = local_defs(rvf, fv["lid"])
+            init_false = [d for d in defs if d[0] == "let" and d[1] is not None and peel(d[1]).get("v") is False]
+            sets = [n for n in rvf["_nodes"] if n["k"] == "Assign" and peel(n["l"]).get("lid") == fv["lid"]]
+            sets_ok = bool(sets)
+            for a_ in sets:
+                g = guards_at(F, a_)
+                m_ = [x for x in g if x.kind == "cond" and x.pol and x.node.get("k") == "MethodCall" and x.node["name"] == "matches" and tyc(F, x.node["recv"], "VersionReq")]
+                dt = [x for x in g if x.kind == "cond" and mentions_call(x.node, ["matches_newest_dependency_date"])]
+                sets_ok = sets_ok and peel(a_["r"]).get("v") is True and bool(m_) and not dt
+            ok = len(init_false) == 1 and sets_ok
+            why = "init false: %s; set exactly for versions matching the requirement: %s" % (bool(init_false), sets_ok)
+        R.ob("C06-e", "`excluded by date` is claimed only if some version satisfied the requirement", ok,
+             "had_higher_date_version %s: a not-found error would blame the newest-dependency date although no version matched the requirement at all (or would not mention it when one did)" % why, where(nn[0]))
     # ---------------- C06-f ------------------------------------------------
     fl_ = F.body("graph::ModuleGraph::fill_from_lockfile")
     mm = [n for n in fl_["_nodes"] if n["k"] == "Match" and "kind" in expr_text(n["scrut"])]
